@@ -38,11 +38,12 @@ CLAIMED = {
         note=TB + "Wall-clock reading is an input of the model; auto IDs are a checked relation; the compare_exchange retry path is assumed not to fire on one thread.",
         ref="DESIGN.md section 5 C15"),
     "C16": dict(
-        text=("Proof: the four pending-list representations agree after every history (induction over op lists), exactly-once delivery under > for every history and start "
-              "position (Spec) and for the repaired code, XACK counts once / idempotent, XCLAIM moves ownership, XPENDING equals the actual pending set, administration effects "
-              "and isolation - Lean theorems over a transliteration of consumer_groups.rs; every op's reply and the verif_dump of all representations are compared with the model "
-              "in-process (41k evaluations per quick run, Spec judged on the implementation's own dumps)."),
-        note=TB + "Source switches (start id, NOACK, reversed range, explicit-id history) are detected by regex in lib/c16.py; idle times are Booleans; SETID histories are outside exactly_once.",
+        text=("Proof: the four pending-list representations agree after EVERY history (induction over op lists, incl. XGROUP SETID backwards, explicit-id reads and re-delivery of ids that are already "
+              "pending: representations_agree_fixed for the tree as it is since 4e71041), exactly-once delivery under > for every history and start position, XACK counts once / idempotent, XCLAIM moves "
+              "ownership, XPENDING (summary, range, range + consumer filter) equals the actual pending set, administration effects and isolation, refused administration changes nothing - 39 Lean theorems over "
+              "a transliteration of consumer_groups.rs with six source switches; every op's reply and the verif_dump of all representations are compared with the model in-process (42k evaluations per quick "
+              "run, Spec judged on the implementation's own dumps), through the typed API and the real handle_x* functions, with a real-time layer for idle thresholds and an independent oracle that a refused op leaves every dump unchanged."),
+        note=TB + "Source switches (start id, NOACK, reversed range, explicit-id history, re-delivery, consumer filter) are detected by regex in lib/c16.py; idle times are Booleans in the model (real-time layer checks thresholds); handlers are driven in-process, not over TCP.",
         ref="DESIGN.md section 5 C16"),
     "C05": dict(
         text=("Proof: for every pipeline of command frames, every handler and EVERY segmentation of the request bytes the connection loop emits exactly the sequential replies "
